@@ -15,7 +15,10 @@ RULE = (
     'rooted at a fresh unreferenced result, swap(0,1), swap(1,2), sift} '
     'on a 3-variable manager, for several (f, g) pairs (L=4 quick, L=5/6 '
     'thorough); random histories of 300-2000 steps over 3-6 variables '
-    'with every operation kind. After every step: count == in-edges + '
+    'with every operation kind, a third of them with dynamic reordering '
+    'enabled at a tiny threshold (reorderings, each starting with a '
+    'collection, that the library begins by itself in the middle of '
+    'operations on held operands). After every step: count == in-edges + '
     'ledger for every node (M4), no held node or descendant missing, '
     'reduced/ordered/unique (M1), cache entries mention only stored nodes '
     'and keep the meaning they had when first seen (M5 temporal), held '
@@ -50,12 +53,13 @@ def plan(tier, seed):
     for k in range(nr):
         specs.append(dict(kind='random', sub=k, n=3 + k % 4,
                           steps=5000 if tier == 'thorough' else 400,
-                          hashseed=k))
+                          dynamic=(k % 3 == 2), hashseed=k))
     meta = dict(
         rule=RULE,
         require=['sequences', 'steps', 'quiescent_checks', 'gc_calls',
                  'gc_freed_nodes', 'node_numbers_reused',
-                 'gc_rooted_calls', 'swap_calls', 'cache_entries_watched'],
+                 'gc_rooted_calls', 'swap_calls', 'cache_entries_watched',
+                 'dynamic_history_steps'],
         assumptions=['the harness is the only holder of external '
                      'references (its ledger is the external count)',
                      'truth-table denotation from BDD._succ'],
@@ -195,11 +199,31 @@ def exhaustive(ctx, spec):
 def random_(ctx, spec):
     rng = ctx.rng('random', spec['sub'])
     names = [f'x{i}' for i in range(spec['n'])]
-    w = World(ctx, rng, names, kind='bdd', strict=False, watch_cache=True)
+    import dd.bdd as _b
+    dynamic = spec.get('dynamic', False)
+    old_starts = _b.REORDER_STARTS
+    if dynamic:
+        # reorderings (each begins with a collection) that the library
+        # starts by itself in the middle of operations, operands held
+        _b.REORDER_STARTS = 4 + spec['sub'] % 5
+    try:
+        _random(ctx, spec, rng, names, dynamic)
+    finally:
+        _b.REORDER_STARTS = old_starts
+
+
+def _random(ctx, spec, rng, names, dynamic):
+    w = World(ctx, rng, names, kind='bdd', strict=False, watch_cache=True,
+              reordering=dynamic)
     menu = dict(build=6, apply=10, apply_quant=1, ite=5, quantify=3,
                 let_const=2, let_rename=2, let_compose=2, cube=1, var=1,
                 add_expr=2, dup=3, drop=8, drop_many=2, gc=6, gc_rooted=3,
                 swap=4, sift=1, reorder_to=1, pairs=1, clone=1, **{'not': 1})
+    if dynamic:
+        # (the rooted-collection step keeps an unreferenced result across
+        # another operation, which dynamic reordering may legitimately
+        # free: not used here)
+        menu.update(rearm=4, clone=0, gc_rooted=0)
     ever = set(w.raw._succ)
     for k in range(spec['steps']):
         before = set(w.raw._succ)
@@ -218,7 +242,10 @@ def random_(ctx, spec):
             return
         ctx.case(bool(before - after) or bool(reused), 'rand',
                  spec['sub'], w.state_hash())
+    if dynamic:
+        ctx.counters['dynamic_history_steps'] += spec['steps']
     ctx.sample(dict(kind='random', n=spec['n'], steps=spec['steps'],
+                    dynamic=dynamic,
                     last_steps=[list(map(str, d)) for d in w.log[-6:]]))
     ctx.guard('shutdown', w.finish)
 
